@@ -97,6 +97,26 @@ def cases(draw):
             "shared_params": draw(st.sampled_from([False, False, True])), "peek_kid": draw(st.sampled_from([False, False, True]))}
 
 
+class KeyProvider:
+    """A key resolver that is an object with __call__ (a key directory client, say)."""
+
+    def __init__(self, keys):
+        self.keys = keys
+
+    def __call__(self, obj):
+        return self.keys
+
+
+def _provide(keys, obj):
+    return keys
+
+
+def as_callable(keys, seed: int):
+    """The forms a key callable takes in applications: a lambda, a functools.partial, an object with __call__, a bound method."""
+    import functools
+    return [lambda obj: keys, functools.partial(_provide, keys), KeyProvider(keys), KeyProvider(keys).__call__][seed % 4]
+
+
 def eff_kids(c):
     return [kid if kid is not None else rk.thumbprint(gk.key_from_record(k)) for k, kid in zip(c["keys"], c["kids"])]
 
@@ -170,7 +190,7 @@ def run_case(c) -> dict:
     decoy_sender = jkey(gk.ec_from_d("P-256", 777) if tkey["kty"] == "EC" else gk.okp_from_seed("X25519", bytes(range(1, 33))), "dict", True, {"kid": "sender-2"})
     use_sset = is1pu and c["sender_set"]
     payload = b"payload"
-    keyarg = (lambda s: s) if c["keymode"] == "set" else (lambda s: (lambda obj: s))
+    keyarg = (lambda s: s) if c["keymode"] == "set" else (lambda s: as_callable(s, c["seed"]))
     enc = "A128GCM"
     if c["op"] == "consume":
         # ---- mint with the reference
@@ -349,7 +369,7 @@ def run_multi_produce(c) -> dict:
     o = jwe.GeneralJSONEncryption({"enc": "A128GCM"}, b"payload")
     o.add_recipient({"alg": a1})
     o.add_recipient({"alg": "ECDH-ES+A128KW"})
-    arg = pubset if c["keymode"] == "set" else (lambda obj: pubset)
+    arg = pubset if c["keymode"] == "set" else as_callable(pubset, c["seed"])
     try:
         tok = jwe.encrypt_json(o, arg, algorithms=jweplan.ALL_NAMES)
     except Exception as e:
@@ -426,6 +446,67 @@ def run_roundtrip(c) -> dict:
     return f
 
 
+# ------------------------------------------------------------------ fresh interpreters: what a set picks does not depend on import order
+IMPORT_ORDERS = {"jws-then-jwe": "from joserfc import jws\nfrom joserfc import jwe", "jwe-then-jws": "from joserfc import jwe\nfrom joserfc import jws",
+                 "jwt-only": "from joserfc import jwt\nfrom joserfc import jws, jwe", "jwk-first": "from joserfc import jwk\nfrom joserfc import jws\nfrom joserfc import jwe"}
+FRESH_SCRIPT = r'''
+import sys, json, warnings
+warnings.simplefilter("ignore")
+sys.path.insert(0, sys.argv[1] + "/src")
+%s
+from joserfc.jwk import KeySet, OctKey, ECKey, OKPKey, RSAKey
+keys = json.loads(sys.argv[2])
+out = {}
+def mixed(skip=None):
+    # every key of a type is suitable for the algorithms of that type (no Edwards key where ECDH may pick an OKP key)
+    return KeySet([{"oct": OctKey, "EC": ECKey, "OKP": OKPKey, "RSA": RSAKey}[k["kty"]].import_key(k) for k in keys if k["kty"] != skip])
+for alg, kty in (("HS256", "oct"), ("ES256", "EC"), ("EdDSA", "OKP")):
+    bad = []
+    for i in range(12):
+        ks = mixed()
+        try:
+            t = jws.serialize_compact({"alg": alg}, b"payload", ks, algorithms=[alg])
+            o = jws.deserialize_compact(t, ks, algorithms=[alg])
+            picked = [k for k in ks.keys if k.kid == o.headers().get("kid")]
+            if not picked or picked[0].key_type != kty:
+                bad.append("kid of a %%s key" %% (picked[0].key_type if picked else "no"))
+        except Exception as e:
+            bad.append(type(e).__name__)
+    out["jws:" + alg] = bad
+for alg, kty in (("A128KW", "oct"), ("ECDH-ES", "EC")):
+    bad = []
+    for i in range(8):
+        ks = mixed("OKP")
+        try:
+            t = jwe.encrypt_compact({"alg": alg, "enc": "A128GCM"}, b"payload", ks)
+            if jwe.decrypt_compact(t, ks).plaintext != b"payload":
+                bad.append("other plaintext")
+        except Exception as e:
+            bad.append(type(e).__name__)
+    out["jwe:" + alg] = bad
+print(json.dumps(out))
+'''
+
+
+def run_import_order(order: str) -> dict:
+    """In a fresh interpreter the modules are imported in the given order; a mixed key set then signs / encrypts without kid."""
+    import subprocess
+    import sys as _sys
+    from harness.core import REPO
+    keys = [rk.export_jwk({"kty": "oct", "k": bytes(range(16))}), rk.export_jwk(gk.ec_from_d("P-256", 0xABCDEF123457)),
+            rk.export_jwk(gk.okp_from_seed("Ed25519", bytes(range(1, 33)))), rk.export_jwk({a: b for a, b in gk.rsa_pool()[2].items() if a != "bits"})]
+    r = subprocess.run([_sys.executable, "-c", FRESH_SCRIPT % IMPORT_ORDERS[order], REPO, json.dumps(keys)], capture_output=True, text=True, timeout=300)
+    if r.returncode != 0:
+        return {f"C14:fresh-interpreter-fails:{order}": r.stderr[-300:]}
+    out = json.loads(r.stdout.strip().splitlines()[-1])
+    f = {}
+    for what, bad in out.items():
+        if bad:
+            f[f"C14:mixed-set-without-kid-fails:{what.split(':')[0]}:import-order"] = (f"modules imported in the order {order}: {what} with a mixed key set (oct, EC, RSA, for JWS also OKP) and no kid "
+                                                                                   f"failed {len(bad)} times ({sorted(set(bad))})")
+    return f
+
+
 def shards(tier):
     return [(f"k{i:02d}", {"i": i}) for i in range(16)]
 
@@ -450,10 +531,17 @@ def run_shard(ctx, spec):
             ctx.case(("rt", n, tuple(k["kty"] for k in c["keys"]), tuple(k is None for k in c["kids"])), cls="roundtrip-set")
             for k, w in f2.items():
                 ctx.finding(k, w, dict(c, roundtrip=True))
+    if spec["i"] < len(IMPORT_ORDERS):
+        order = sorted(IMPORT_ORDERS)[spec["i"]]
+        ctx.case(("import-order", order), cls="import-order")
+        for k, w in run_import_order(order).items():
+            ctx.finding(k, w, {"import_order": order})
     drive(ctx, "kid", cases(), body, 300 if ctx.tier == "quick" else 8000)
 
 
 def replay(rec) -> dict:
     from gens.jose import setup_joserfc
     setup_joserfc()
+    if "import_order" in rec:
+        return run_import_order(rec["import_order"])
     return run_roundtrip(rec) if rec.get("roundtrip") else run_case(rec)
